@@ -151,6 +151,16 @@ def _simulate(dec, rec, tier, scr):
             c["odd"] = False
     Tmax = 2 if small else (8 if thorough else 5)
     T = 1 + dec("cfg/T", Tmax)
+    if not thorough:
+        # keep a quick-tier history cheap: a fine mesh multiplies the K-points per refined cell by up to 64, and every
+        # calculator adds three refinement criteria
+        mesh = cfg["adpt_mesh"]
+        fine = (int(np.prod(mesh)) if isinstance(mesh, list) else mesh ** int(sum(cfg["sym"]["periodic"]))) >= 27
+        if fine:
+            cfg["adpt_fac"] = 1
+            cfg["calc"] = cfg["calc"][:2]
+            cfg["ncalc"] = len(cfg["calc"])
+            T = min(T, 3)
     cfg["adpt_num_iter"] = T
     listing = dec.pick("fs/listing", [2, 2, 3, 2])
     modes = ["restartable", "dump"]
